@@ -88,6 +88,7 @@ def run_script(script, payloads, roots, rng):
          ["process", c] / ["deliver", c, fault]  one server step (skipped when the real world does not enable it)
          ["settle", policy]                      server steps until quiescent; policy: "fifo" | "lifo" | "rr" | ["rand", seed]
          ["fault", msg number, recipient, "dup" | "corrupt"]   the first delivery of that message to that recipient is faulted
+         ["until-retry", c]                      server steps until c has written a retry receipt
          ["restart", c]                          at a quiescent point
          ["join", c] / ["leave", c]              the group's membership changes, at a quiescent point
        Returns (world, outcome) - outcome: None | ("exception", step, exc) | ("diverged", n)."""
@@ -183,6 +184,19 @@ def run_script(script, payloads, roots, rng):
                                 ok.append(j)
                         return r3.choice(ok)
                 w.settle(chooser(op[1]), fault_for=fault_for, pick_j=pj)
+            elif k == "until-retry":
+                # server steps (oldest first) until account op[1] has written a retry receipt; what is queued then stays queued
+                for _ in range(200):
+                    if any(x["k"] == "rcpt" and x["f"] == 1 for rec in w.trace if rec["t"] == "Deliver" and rec["c"] == op[1] for x in rec["out"]["sent"]):
+                        break
+                    en = w.enabled()
+                    if not en:
+                        break
+                    kind, name = en[0]
+                    if kind == "process":
+                        w.do_process(name)
+                    else:
+                        w.do_deliver(name, fault_for(name, w.head(name, 1)), 1)
             elif k == "restart":
                 if not w.enabled():
                     w.do_restart(op[1])
@@ -247,6 +261,10 @@ def families(thorough, rng):
                 ["send", "a", "b", "text"], ["send", "a", "b", "location"], ["send", "a", "b", "text"], ["settle", p]], "burst-later-both-corrupt")
         add(3, [["send", "a", "G", "text"], ["settle", p], ["fault", 2, "b", "corrupt"], ["fault", 3, "b", "corrupt"], ["fault", 3, "c", "corrupt"], ["send", "a", "G", "text"], ["send", "a", "G", "contact"],
                 ["settle", p]], "burst-group-both-corrupt")
+    # the recipient of a damaged first-contact message writes to its author while its retry request is still on its way
+    for p in pol[:3] if not thorough else pol:
+        add(2, [["fault", 1, "b", "corrupt"], ["send", "a", "b", "text"], ["until-retry", "b"], ["send", "b", "a", "text"], ["settle", p], ["send", "a", "b", "image"]], "reply-during-retry")
+        add(3, [["fault", 1, "b", "corrupt"], ["send", "a", "G", "text"], ["until-retry", "b"], ["send", "b", "G", "text"], ["send", "b", "a", "location"], ["settle", p], ["send", "c", "G", "text"]], "group-reply-during-retry")
     # restarts between messages
     for p in pol[:3] if not thorough else pol:
         add(2, [["send", "a", "b", "text"], ["settle", p], ["restart", "a"], ["send", "a", "b", "text"], ["settle", p], ["restart", "b"], ["send", "b", "a", "text"],
